@@ -1370,6 +1370,10 @@ class SVG:
 
         # https://github.com/googlefonts/picosvg/issues/269 remove empty subpaths *after* rounding
         self.remove_empty_subpaths(inplace=True)
+        if drop_unsupported:
+            # drop unsupported elements now (not only at the final gate), so that a group
+            # they leave with fewer than two children is still flattened below
+            self.checkpicosvg(allow_text=allow_text, drop_unsupported=True)
         # Dropping an unpainted shape can leave a group with fewer than two children;
         # flattening that group multiplies opacities, which (once rounded) can make
         # another shape invisible: repeat until nothing changes.
